@@ -38,7 +38,7 @@ PARTNER_KEYS = {"EM Dataset", "Current Electrodes", "Potential Electrodes"}
 
 
 def floors(tier):
-    return {"copies-judged": 150, "C12.differs": 1200, "C12.source-changed": 150, "C12.aliasing": 300, "C12.pg-remap": 80, "group-subtrees": 10, "drillhole-groups": 8, "classes-covered": 40}
+    return {"copies-judged": 150, "C12.differs": 1200, "C12.source-changed": 150, "C12.aliasing": 300, "C12.pg-remap": 80, "group-subtrees": 10, "drillhole-groups": 8, "copies-left-alone": 2, "classes-covered": 40}
 
 
 def EXHAUSTIVE(tier):
@@ -614,7 +614,8 @@ def run_drill(case, rec, rng, scene):
 
     grp = getattr(groups, case["cls"]).create(scene.ws, parent=scene.home, name="DH")
     expected = {}
-    lazy = rng.random() < 0.5  # do not read the source before the copy: its first read comes after the copy was edited
+    mode = (TARGETS.index(case["target"]) + (1 if case["version"] == 2.1 else 0) + len(case["cls"]) + case.get("rep", 0)) % 3
+    lazy = mode == 0  # do not read the source before the copy: its first read comes after the copy was edited
     for i in range(rng.randint(2, 4)):
         h = Drillhole.create(scene.ws, parent=grp, name=f"h{i}", collar=[float(i), 1.0, 10.0], surveys=np.array([[0.0, 10.0 * i, -90.0], [20.0, 10.0, -80.0], [40.0, 20.0, -70.0]]))
         n = rng.randint(2, 5)
@@ -655,7 +656,8 @@ def run_drill(case, rec, rng, scene):
         return
     rec.see("copies-judged")
     rec.see("class:" + case["cls"])
-    store1 = hole_store(new)
+    left_alone = mode == 1  # the copy is not even read in this session (nothing of it gets instantiated)
+    store1 = store0 if left_alone else hole_store(new)
     rec.evals["C12.holes"] += 1
     for path, x, y in diff_paths(store0, store1, limit=6):
         fld = path.strip("/").split("/")
@@ -664,6 +666,41 @@ def run_drill(case, rec, rng, scene):
     dig1 = snap.node_digests(snap.raw_snapshot(scene.ws.geoh5))
     gpath = "Groups/{" + str(grp.uid) + "}"
     rec.check("C12.source-changed", dig0.get(gpath, {}).get("content") == dig1.get(gpath, {}).get("content"), op=where, cls=case["cls"], attr="file:Groups", detail="the source group's concatenated store changed in the file")
+    if left_alone:
+        # the copy is left alone: the session goes on with unrelated work in the copy's workspace (an object is created and
+        # removed, the type listing is read) while nobody holds the copied holes; a later reader must still find every hole
+        # with its data
+        from geoh5py.objects import Points
+
+        tws, new_uid = new.workspace, new.uid
+        new = None
+        gc.collect()
+        try:
+            other = Points.create(tws, vertices=np.zeros((2, 3)), name="unrelated")
+            tws.remove_entity(other)
+            other = None
+            _ = tws.types
+            tws.close()
+            tws.open()
+            again = tws.get_entity(new_uid)[0]
+            store2 = hole_store(again)
+        except Exception as exc:  # noqa: BLE001
+            from ..core import exc_origin
+
+            if not exc_origin(exc)[0]:
+                raise
+            rec.fail("C12.holes", op=where + ":after-unrelated-work", cls=case["cls"], attr=type(exc).__name__, detail=f"after unrelated work in the copy's workspace and a re-open, reading the copied holes raised {type(exc).__name__}: {short(str(exc), 200)}")
+            return
+        rec.see("copies-left-alone")
+        for path, x, y in diff_paths(store0, store2, limit=6):
+            fld = path.strip("/").split("/")
+            rec.fail("C12.holes", op=where + ":after-unrelated-work", cls=case["cls"], attr=fld[1] if len(fld) > 1 else "hole", detail=f"{path}: source {short(x)} re-opened copy {short(y)}", counted=True)
+        if tws is scene.ws:
+            scene.home = scene.ws.get_entity(scene.home.uid)[0]
+            scene.other = scene.ws.get_entity(scene.other.uid)[0]
+        rec.nontrivial = True
+        rec.shape = ["drill", case["cls"], case["target"], case["version"], len(store0), "left-alone"]
+        return
     # edit the copy (update one hole's data, remove another's), then re-read the source lazily
     try:
         holes = [h for h in new.children if hasattr(h, "surveys")]
